@@ -50,10 +50,10 @@ def cases(tier, seed, chaos=0.25):
             for w in (rng.sample(wraps, 3) if tier == 'quick' else wraps):
                 e = w % ('%s.%s' % (fv, nm))
                 if fv == '$f': e = '($f := $uppercase; %s)' % e
-                add(e, None, ('funcfield',))
+                add(e, {}, ('funcfield',))
             if tier != 'quick' or rng.random() < 0.2:
-                add('$string(%s.%s.%s)' % (fv, nm, rng.choice(fields)), None, ('funcfield',))
-                add('[%s, %s].%s' % (fv, rng.choice(fvals[:7]), nm), None, ('funcfield',))
+                add('$string(%s.%s.%s)' % (fv, nm, rng.choice(fields)), {}, ('funcfield',))
+                add('[%s, %s].%s' % (fv, rng.choice(fvals[:7]), nm), {}, ('funcfield',))
     # every higher-order built-in with callbacks of every arity 0..6 (lambdas, typed lambdas, multi-parameter built-ins, partials)
     cbs = ['function(){1}', 'function($a){$a}', 'function($a,$b){$b}', 'function($a,$b,$c){$c}', 'function($a,$b,$c,$d){$d}', 'function($a,$b,$c,$d,$e){$e}', 'function($a,$b,$c,$d,$e,$g){$g}',
            '$replace', '$substring', '$pad', '$split', '$formatNumber', '$reduce', '$replace(?, ?, ?, ?)', '$substring(?, ?, ?)', 'function($a,$b,$c,$d)<xxxx:x>{$d}', '$sum', '$string', '$zip', '$append', '$match', '/a/']
@@ -62,7 +62,7 @@ def cases(tier, seed, chaos=0.25):
     for h in hofs:
         for cb in cbs:
             for sb in (rng.sample(subs, 3) if tier == 'quick' else subs):
-                add(h % (sb, cb), None, ('hof-arity',))
+                add(h % (sb, cb), {}, ('hof-arity',))
     # every built-in at every arity 0..4 with chaotic arguments
     atoms = ['1', '"s"', 'true', 'null', '[]', '[1,2]', '{}', '{"a":1}', '$sum', 'function($x){$x}', 'nothing', '/a/', '-1', '1e300', '""', '[[1]]', '["a","b"]', '$', 'a']
     for (name, rt, ats) in BUILTINS + [('error', 'x', ['s']), ('fromMillis', 's', ['n']), ('toMillis', 'n', ['s']), ('match', 'a', ['s', 'f']), ('encodeUrl', 's', ['s']), ('decodeUrl', 's', ['s'])]:
@@ -76,4 +76,4 @@ def run(tier, seed, replay=None):
         'every higher-order built-in x 22 callbacks of arity 0..6 x 9 subjects; name steps on function values for every struct field identifier found in the implementation source x 18 consumers; type-directed (chaos 3%) and type-chaotic (chaos 25%) programs of depth <= 4 over every node type and every built-in at arities 0..4 with arguments of every kind incl. functions used as data, '
         'nested arrays, regexes, huge numbers; JSON inputs incl. nulls, empty containers and arrays nested in arrays; corpus of every quoted witness; sizes bounded; '
         'a panic or hang of the implementation is the violation; outcome classes are also compared with the model; distinct = distinct (expression, input)',
-        cases, owner_direct=(), value_compare=False)
+        cases, owner_direct=(), value_compare=False, quiet_tie=True)
